@@ -20,13 +20,14 @@
 EXTENDS Naturals, Sequences, FiniteSets, FiniteSetsExt, SequencesExt, TLC
 
 CONSTANTS NRows, MVals, AVals, BVals, CVals,   \* value alphabets of columns M, A, B, C
+          FocusSets,                       \* --feature_set_focus: sets of column ids kept (with the label); {"M","A","B","C"} = no focus
           SubMaps,                         \* set of --subfeature_mapping lists: sequences of <<"one"|"two", seed column, selector column>>
           FlagSets,                        \* set of flag subsets explored
           MissingTokens,                   \* tokens that are missing-value symbols (no indicator column)
           NControls                        \* number of random control columns (names fixed by the code)
 
-VARIABLES pc, flags, submap, frame, frame0
-vars == <<pc, flags, submap, frame, frame0>>
+VARIABLES pc, flags, submap, focus, raw, frame, frame0
+vars == <<pc, flags, submap, focus, raw, frame, frame0>>
 
 Rows == 1..NRows
 \* token sets of the multi-value strings ("," and "-" both delimit)
@@ -49,16 +50,20 @@ Uniq(col) == LET RECURSIVE U(_, _)
                               ELSE IF \E j \in DOMAIN acc : acc[j] = col[i] THEN U(i + 1, acc) ELSE U(i + 1, Append(acc, col[i]))
              IN U(1, <<>>)
 
-Init == /\ pc = "m" /\ flags \in FlagSets /\ frame = <<>> /\ frame0 = <<>>
+Init == /\ pc = "m" /\ flags \in FlagSets /\ frame = <<>> /\ frame0 = <<>> /\ raw = <<>>
         /\ submap \in (IF "sub" \in flags THEN SubMaps ELSE {<<>>})
+        /\ focus \in FocusSets
 ChooseM == /\ pc = "m" /\ \E c \in [Rows -> MVals] : frame' = <<<<<<"lab">>, LabelCol>>, <<<<"M">>, c>>>>
-           /\ pc' = "a" /\ UNCHANGED <<flags, submap, frame0>>
+           /\ pc' = "a" /\ UNCHANGED <<flags, submap, focus, raw, frame0>>
 ChooseA == /\ pc = "a" /\ \E c \in [Rows -> AVals] : frame' = Append(frame, <<<<"A">>, c>>)
-           /\ pc' = "b" /\ UNCHANGED <<flags, submap, frame0>>
+           /\ pc' = "b" /\ UNCHANGED <<flags, submap, focus, raw, frame0>>
 ChooseB == /\ pc = "b" /\ \E c \in [Rows -> BVals] : frame' = Append(frame, <<<<"B">>, c>>)
-           /\ pc' = "c" /\ UNCHANGED <<flags, submap, frame0>>
-ChooseC == /\ pc = "c" /\ \E c \in [Rows -> CVals] : frame' = Append(frame, <<<<"C">>, c>>)
-           /\ frame0' = frame' /\ pc' = "expand" /\ UNCHANGED <<flags, submap>>
+           /\ pc' = "c" /\ UNCHANGED <<flags, submap, focus, raw, frame0>>
+\* the focus restriction keeps the label and the focused columns, in the data's column order; it is applied
+\* before any constructor, so the focused frame is the batch's "original" frame
+Focused(f) == SelectSeq(f, LAMBDA col : col[1] = <<"lab">> \/ col[1][1] \in focus)
+ChooseC == /\ pc = "c" /\ \E c \in [Rows -> CVals] : raw' = Append(frame, <<<<"C">>, c>>)
+           /\ frame' = Focused(raw') /\ frame0' = frame' /\ pc' = "expand" /\ UNCHANGED <<flags, submap, focus>>
 
 \* ---- compute_expanded_multivalue_features
 TokensOfCol(col) == UNION {Tok[col[r]] : r \in Rows} \ MissingTokens
@@ -67,7 +72,7 @@ ExpandCols == LET toks == SelectSeq(TokenOrder, LAMBDA t : t \in TokensOfCol(Val
                                          [r \in Rows |-> IF toks[k] \in Tok[Vals(frame, "M")[r]] THEN "1" ELSE ""]>>]
 Expand == /\ pc = "expand"
           /\ frame' = IF "multi" \in flags THEN frame \o ExpandCols ELSE frame
-          /\ pc' = "sub" /\ UNCHANGED <<flags, submap, frame0>>
+          /\ pc' = "sub" /\ UNCHANGED <<flags, submap, focus, raw, frame0>>
 
 \* ---- compute_subfeatures: the pairs of the mapping list in order
 SubOneCols(a, b) == LET ub == Uniq(Vals(frame, b))
@@ -81,7 +86,7 @@ SubColsOf(e) == IF e[1] = "one" THEN SubOneCols(e[2], e[3]) ELSE SubTwoCols(e[2]
 SubCols == FoldLeft(LAMBDA acc, e : acc \o SubColsOf(e), <<>>, submap)
 Sub == /\ pc = "sub"
        /\ frame' = frame \o SubCols
-       /\ pc' = "interact" /\ UNCHANGED <<flags, submap, frame0>>
+       /\ pc' = "interact" /\ UNCHANGED <<flags, submap, focus, raw, frame0>>
 
 \* ---- compute_combined_features, order 2, cap above the candidate count
 NonLabel == SelectSeq([k \in DOMAIN frame |-> k], LAMBDA k : frame[k][1] # <<"lab">>)
@@ -92,14 +97,14 @@ InteractCols == [k \in DOMAIN PairSeq |->
                    IN <<<<"AND", c1[1], c2[1]>>, [r \in Rows |-> <<c1[2][r], c2[2][r]>>]>>]
 Interact == /\ pc = "interact"
             /\ frame' = IF "interact" \in flags THEN frame \o InteractCols ELSE frame
-            /\ pc' = "noise" /\ UNCHANGED <<flags, submap, frame0>>
+            /\ pc' = "noise" /\ UNCHANGED <<flags, submap, focus, raw, frame0>>
 
 \* ---- include_noisy_features: random controls (values unconstrained: "?"), the target control copies the label
 NoiseCols == [k \in 1..NControls |-> <<<<"CONTROL", ToString(k)>>, [r \in Rows |-> "?"]>>]
              \o <<<<<<"CONTROL", "target">>, Vals(frame, "lab")>>, <<<<"CONTROL", "volume">>, [r \in Rows |-> "?"]>>>>
 Noise == /\ pc = "noise"
          /\ frame' = IF "noise" \in flags THEN frame \o NoiseCols ELSE frame
-         /\ pc' = "done" /\ UNCHANGED <<flags, submap, frame0>>
+         /\ pc' = "done" /\ UNCHANGED <<flags, submap, focus, raw, frame0>>
 
 Next == ChooseM \/ ChooseA \/ ChooseB \/ ChooseC \/ Expand \/ Sub \/ Interact \/ Noise
 Spec == Init /\ [][Next]_vars
@@ -133,5 +138,6 @@ TwoSidedRule == (pc \in {"interact", "noise", "done"}) =>
                                           (IF Vals(frame0, a)[r] = va /\ Vals(frame0, b)[r] = vb THEN "1" ELSE "0")
 TargetControlIsLabel == (pc = "done" /\ "noise" \in flags) =>
     \E k \in DOMAIN frame : frame[k][1] = <<"CONTROL", "target">> /\ frame[k][2] = Vals(frame0, "lab")
-Emit == pc = "done" => PrintT(<<"CASE", flags, submap, frame0, frame>>)
+FocusKeepsOrder == Built => \A k \in DOMAIN frame0 : frame0[k][1] = <<"lab">> \/ frame0[k][1][1] \in focus
+Emit == pc = "done" => PrintT(<<"CASE", flags, submap, frame0, frame, focus, raw>>)
 =============================================================================
